@@ -235,8 +235,59 @@ impl Op {
 pub struct Adversary {
     pub cert: Certificate,
     key: p256::ecdsa::SigningKey,
+    dh_secret: p256::SecretKey,
     pub dh_pub: Vec<u8>, // uncompressed P-256 point
     pub random: [u8; 32],
+}
+
+/// TLS 1.2 PRF (SHA-256), RFC 5246 section 5.
+fn tls_prf(secret: &[u8], label: &[u8], seed: &[u8], len: usize) -> Vec<u8> {
+    use hmac::{Hmac, Mac};
+    type H = Hmac<sha2::Sha256>;
+    let mut real_seed = label.to_vec();
+    real_seed.extend_from_slice(seed);
+    let mut out = Vec::new();
+    let mut a = real_seed.clone();
+    while out.len() < len {
+        let mut mac = <H as hmac::digest::KeyInit>::new_from_slice(secret).unwrap();
+        mac.update(&a);
+        a = mac.finalize().into_bytes().to_vec();
+        let mut mac = <H as hmac::digest::KeyInit>::new_from_slice(secret).unwrap();
+        mac.update(&a);
+        mac.update(&real_seed);
+        out.extend_from_slice(&mac.finalize().into_bytes());
+    }
+    out.truncate(len);
+    out
+}
+
+fn sha256(d: &[u8]) -> Vec<u8> {
+    use sha2::Digest;
+    let mut h = sha2::Sha256::new();
+    h.update(d);
+    h.finalize().to_vec()
+}
+
+/// One AES-128-GCM protected DTLS 1.2 record (RFC 5288 nonce / AAD layout).
+fn seal_record(ctype: u8, epoch: u16, seq: u64, plain: &[u8], key: &[u8], iv: &[u8]) -> Vec<u8> {
+    use aes_gcm::aead::{AeadInPlace, KeyInit};
+    let full = ((epoch as u64) << 48) | seq;
+    let mut nonce = [0u8; 12];
+    nonce[..4].copy_from_slice(iv);
+    nonce[4..].copy_from_slice(&full.to_be_bytes());
+    let mut aad = [0u8; 13];
+    aad[..8].copy_from_slice(&full.to_be_bytes());
+    aad[8] = ctype;
+    aad[9] = 254;
+    aad[10] = 253;
+    aad[11..].copy_from_slice(&(plain.len() as u16).to_be_bytes());
+    let cipher = aes_gcm::Aes128Gcm::new_from_slice(key).unwrap();
+    let mut body = plain.to_vec();
+    let tag = cipher.encrypt_in_place_detached(aes_gcm::Nonce::from_slice(&nonce), &aad, &mut body).unwrap();
+    let mut payload = full.to_be_bytes().to_vec();
+    payload.extend_from_slice(&body);
+    payload.extend_from_slice(&tag);
+    encode_record(&Rec { ver: (254, 253), ctype, epoch, rseq: seq, body: payload })
 }
 
 impl Adversary {
@@ -244,10 +295,10 @@ impl Adversary {
         use p256::pkcs8::DecodePrivateKey;
         let key = p256::ecdsa::SigningKey::from_pkcs8_pem(&cert.private_key).expect("adversary key");
         // any valid curve point serves as the adversary's ECDH share; it takes a fresh one
-        let sk = p256::ecdh::EphemeralSecret::random(&mut p256::elliptic_curve::rand_core::OsRng);
+        let sk = p256::SecretKey::random(&mut p256::elliptic_curve::rand_core::OsRng);
         use p256::elliptic_curve::sec1::ToEncodedPoint;
         let dh_pub = sk.public_key().to_encoded_point(false).as_bytes().to_vec();
-        Adversary { cert, key, dh_pub, random }
+        Adversary { cert, key, dh_secret: sk, dh_pub, random }
     }
 
     /// ECDSA-SHA256 (DER) by M's certificate key over client_random || server_random || ECDH params.
@@ -304,7 +355,15 @@ pub struct ProxyState {
     cr_seen: Vec<u8>,
     sr_seen: Vec<u8>,
     /// message_seq shift applied to plaintext handshake messages per direction (after an `omit`).
-    seq_shift: HashMap<String, i32>,
+    seq_shift: HashMap<String, Vec<(u16, i32)>>,   // (from, delta): message_seq >= from moves by delta
+    /// plaintext handshake messages as the client sent them / as they were delivered to the client (by message_seq)
+    seen_c: std::collections::BTreeMap<u16, Vec<u8>>,
+    seen_s: std::collections::BTreeMap<u16, Vec<u8>>,
+    /// the adversary finishes the handshake in the server's place once the client has answered (inj_ske2)
+    takeover_armed: bool,
+    takeover_done: bool,
+    /// datagrams of the adversary's own making to be sent by the proxy loop: (towards, bytes)
+    pub reverse: Vec<(String, Vec<u8>)>,
     pub forwarded: u64,
     /// forward a datagram that packs several records as one datagram per record (same order), so that
     /// every record is individually addressable (peers that pack a whole flight into one datagram)
@@ -327,6 +386,11 @@ impl ProxyState {
             cr_seen: Vec::new(),
             sr_seen: Vec::new(),
             seq_shift: HashMap::new(),
+            seen_c: Default::default(),
+            seen_s: Default::default(),
+            takeover_armed: false,
+            takeover_done: false,
+            reverse: Vec::new(),
             forwarded: 0,
             unpack: false,
             repack: false,
@@ -431,6 +495,50 @@ impl ProxyState {
             let r = Rec { ver: (254, 253), ctype: 23, epoch: 0, rseq: self.next_frag_rseq, body: b"injected-plaintext-appdata".to_vec() };
             return vec![encode_record(&r), d.to_vec()];
         }
+        if matches!(what, "inj_sh2" | "inj_cert2" | "inj_ske2") {
+            // a second ServerHello / Certificate / ServerKeyExchange of M's making, at the message_seq of the message
+            // it precedes (ServerHelloDone), which moves up by one
+            let first = recs.first().filter(|r| r.ctype == 22 && r.epoch == 0).and_then(|r| parse_hs(&r.body).first().cloned());
+            let Some(first) = first else { return vec![d.to_vec()] };
+            let body = match what {
+                "inj_sh2" => {
+                    let mut b = vec![254u8, 253];
+                    b.extend_from_slice(&adv.random);
+                    b.push(0); // session id
+                    b.extend_from_slice(&[0xC0, 0x2B, 0]); // cipher suite, compression
+                    b.extend_from_slice(&[0x00, 0x09, 0x00, 0x17, 0x00, 0x00, 0x00, 0x0e, 0x00, 0x05, 0x00, 0x02, 0x00, 0x01, 0x00]); // EMS, use_srtp
+                    b
+                }
+                "inj_cert2" => {
+                    let der = &adv.cert.certificate[0];
+                    let mut b = Vec::new();
+                    b.extend_from_slice(&((der.len() + 3) as u32).to_be_bytes()[1..4]);
+                    b.extend_from_slice(&(der.len() as u32).to_be_bytes()[1..4]);
+                    b.extend_from_slice(der);
+                    b
+                }
+                _ => ske_build(&adv.dh_pub, &adv.sign_ske(&self.cr_seen, &self.sr_seen, &adv.dh_pub)),
+            };
+            let typ = match what { "inj_sh2" => 2, "inj_cert2" => 11, _ => 12 };
+            self.next_frag_rseq += 1;
+            let h = Hs { typ, total: body.len() as u32, mseq: first.mseq, off: 0, flen: body.len() as u32, body };
+            let r = Rec { ver: (254, 253), ctype: 22, epoch: 0, rseq: recs[0].rseq, body: encode_hs(&h) };
+            let dir_rules = self.seq_shift.entry("S>C".to_string()).or_default();
+            dir_rules.push((first.mseq, 1));
+            *self.rseq_shift.entry("S>C".to_string()).or_insert(0) += 1;
+            if what == "inj_ske2" {
+                self.takeover_armed = true;
+            }
+            // the original follows with its record number moved up like everything behind it
+            let mut orig = Vec::new();
+            for mut r2 in parse_records(d) {
+                if r2.epoch == 0 {
+                    r2.rseq += 1;
+                }
+                orig.extend(encode_record_raw(&r2));
+            }
+            return vec![encode_record(&r), orig];
+        }
         if what == "inj_fin0" {
             // a plaintext Finished with the message_seq of the message it precedes
             let ms = recs.first().filter(|r| r.ctype == 22 && r.epoch == 0).and_then(|r| parse_hs(&r.body).first().map(|h| h.mseq));
@@ -526,8 +634,8 @@ impl ProxyState {
     }
 
     fn apply_seq_shift(&self, dir: &str, d: &[u8]) -> Vec<u8> {
-        let shift = *self.seq_shift.get(dir).unwrap_or(&0);
-        if shift == 0 {
+        let Some(rules) = self.seq_shift.get(dir) else { return d.to_vec() };
+        if rules.is_empty() {
             return d.to_vec();
         }
         let mut out = Vec::new();
@@ -535,14 +643,69 @@ impl ProxyState {
             if r.ctype == 22 && r.epoch == 0 {
                 let mut body = Vec::new();
                 for mut h in parse_hs(&r.body) {
-                    h.mseq = (h.mseq as i32 + shift).max(0) as u16;
+                    let delta: i32 = rules.iter().filter(|(from, _)| h.mseq >= *from).map(|(_, d)| *d).sum();
+                    h.mseq = (h.mseq as i32 + delta).max(0) as u16;
                     body.extend(encode_hs(&h));
                 }
                 r.body = body;
             }
-            out.extend(encode_record(&r));
+            out.extend(encode_record_raw(&r));
         }
         out
+    }
+
+    /// The adversary completes the handshake with the client under its own ECDHE share (the client derived its
+    /// keys from it): ChangeCipherSpec + a correct Finished, then one ApplicationData record.
+    fn takeover(&mut self) {
+        let Some(adv) = self.adversary.as_ref() else { return };
+        let (Some(ch), Some((cke_ms, cke))) = (self.seen_c.get(&0).cloned(), self.seen_c.iter().find(|(_, m)| m[0] == 16).map(|(k, v)| (*k, v.clone()))) else { return };
+        let sh = self.seen_s.values().filter(|m| m[0] == 2).last().cloned();
+        let Some(sh) = sh else { return };
+        if ch.len() < 12 + 34 || sh.len() < 12 + 34 || cke.len() < 13 {
+            return;
+        }
+        let client_random = ch[12 + 2..12 + 34].to_vec();
+        let server_random = sh[12 + 2..12 + 34].to_vec();
+        let pl = cke[12] as usize;
+        let Ok(peer) = p256::PublicKey::from_sec1_bytes(&cke[13..13 + pl]) else { return };
+        let shared = p256::ecdh::diffie_hellman(adv.dh_secret.to_nonzero_scalar(), peer.as_affine());
+        let mut transcript = ch.clone();
+        for m in self.seen_s.values() {
+            transcript.extend_from_slice(m);
+        }
+        transcript.extend_from_slice(&cke);
+        // extended master secret (both rustrtc roles negotiate it)
+        let master = tls_prf(shared.raw_secret_bytes(), b"extended master secret", &sha256(&transcript), 48);
+        let kb = tls_prf(&master, b"key expansion", &[server_random.as_slice(), client_random.as_slice()].concat(), 40);
+        let (skey, siv) = (kb[16..32].to_vec(), kb[36..40].to_vec());
+        let cfin = tls_prf(&master, b"client finished", &sha256(&transcript), 12);
+        transcript.extend_from_slice(&encode_hs(&Hs { typ: 20, total: 12, mseq: cke_ms + 1, off: 0, flen: 12, body: cfin }));
+        let sfin = tls_prf(&master, b"server finished", &sha256(&transcript), 12);
+        let next_ms = self.seen_s.keys().max().map(|k| k + 1).unwrap_or(0);
+        let fin = encode_hs(&Hs { typ: 20, total: 12, mseq: next_ms, off: 0, flen: 12, body: sfin });
+        let mut d = encode_record(&Rec { ver: (254, 253), ctype: 20, epoch: 0, rseq: 200, body: vec![1] });
+        d.extend_from_slice(&seal_record(22, 1, 0, &fin, &skey, &siv));
+        net_event("takeover", json!({"keys": rustrtc::verif::hash32(&master)}));
+        self.reverse.push(("S>C".to_string(), d));
+        self.reverse.push(("S>C".to_string(), seal_record(23, 1, 1, b"adversary-appdata", &skey, &siv)));
+        self.takeover_done = true;
+    }
+
+    fn note_plain(&mut self, dir: &str, d: &[u8]) {
+        for r in parse_records(d) {
+            if r.ctype == 22 && r.epoch == 0 {
+                for h in parse_hs(&r.body) {
+                    if h.off == 0 && h.flen == h.total {
+                        let raw = encode_hs(&h);
+                        if dir == "C>S" {
+                            self.seen_c.entry(h.mseq).or_insert(raw);
+                        } else {
+                            self.seen_s.insert(h.mseq, raw);
+                        }
+                    }
+                }
+            }
+        }
     }
 
     /// Process one datagram travelling in `dir`; returns the datagrams to put on the wire now, in order.
@@ -598,6 +761,12 @@ impl ProxyState {
                 }
             }
         }
+        if dir == "C>S" {
+            self.note_plain(dir, d);
+            if self.takeover_armed && !self.takeover_done && self.seen_c.values().any(|m| m[0] == 16) {
+                self.takeover();
+            }
+        }
         let base = dgram_label(d);
         // remember the original plaintext handshake messages (content oracle for reassembly checks)
         for r in parse_records(d) {
@@ -614,7 +783,7 @@ impl ProxyState {
         net_event("rx", json!({"dir": dir, "msg": base, "ord": ord, "recs": describe(d)}));
 
         // stage 1: transformations of the datagram itself
-        let mut stage1: Vec<(Vec<u8>, String, u32)> = Vec::new(); // (bytes, label, ordinal)
+        let mut stage1: Vec<(Vec<u8>, String, u32, bool)> = Vec::new(); // (bytes, label, ordinal, of M's making)
         if let Some(op) = self.take_op(dir, &base, ord, &["split"]) {
             let n = op.arg["n"].as_u64().unwrap_or(2) as usize;
             let cuts = op.arg["cuts"].as_array().map(|a| a.iter().filter_map(|x| x.as_u64().map(|y| y as usize)).collect());
@@ -632,17 +801,17 @@ impl ProxyState {
                     net_event("split", json!({"dir": dir, "msg": base, "ord": ord, "n": parts.len(), "same_dgram": same}));
                     for (bytes, idx) in parts {
                         if idx == 0 {
-                            stage1.push((bytes, base.clone(), ord));
+                            stage1.push((bytes, base.clone(), ord, false));
                         } else {
                             let l = format!("{base}#{idx}");
                             let o = self.ordinal(dir, &l);
-                            stage1.push((bytes, l, o));
+                            stage1.push((bytes, l, o, false));
                         }
                     }
                 }
                 None => {
                     net_event("split_na", json!({"dir": dir, "msg": base, "ord": ord}));
-                    stage1.push((d.to_vec(), base.clone(), ord));
+                    stage1.push((d.to_vec(), base.clone(), ord, false));
                 }
             }
         } else if let Some(op) = self.take_op(dir, &base, ord, &["rw", "omit", "inject_before", "inject_after"]) {
@@ -650,7 +819,10 @@ impl ProxyState {
                 "omit" => {
                     // drop the message and close the gap in message_seq for everything that follows
                     let n_hs: i32 = parse_records(d).iter().filter(|r| r.ctype == 22 && r.epoch == 0).map(|r| parse_hs(&r.body).len() as i32).sum();
-                    *self.seq_shift.entry(dir.to_string()).or_insert(0) -= n_hs;
+                    let from = parse_records(d).iter().filter(|r| r.ctype == 22 && r.epoch == 0).flat_map(|r| parse_hs(&r.body)).map(|h| h.mseq).min().unwrap_or(0);
+                    if n_hs > 0 {
+                        self.seq_shift.entry(dir.to_string()).or_default().push((from, -n_hs));
+                    }
                     net_event("omit", json!({"dir": dir, "msg": base, "ord": ord}));
                 }
                 _ => {
@@ -664,18 +836,23 @@ impl ProxyState {
                     for (i, o) in outs.into_iter().enumerate() {
                         // injected records travel unlabelled (they are not addressable by later ops)
                         let l = if i + 1 < n { format!("inj:{}", dgram_label(&o)) } else { dgram_label(&o) };
-                        stage1.push((o, l, ord));
+                        stage1.push((o, l, ord, i + 1 < n));
                     }
                 }
             }
         } else {
-            stage1.push((d.to_vec(), base.clone(), ord));
+            stage1.push((d.to_vec(), base.clone(), ord, false));
         }
 
         // stage 2: network faults on each resulting datagram
         let mut wire = Vec::new();
-        for (bytes, label, o) in stage1 {
-            let bytes = self.apply_seq_shift(dir, &bytes);
+        for (bytes, label, o, made) in stage1 {
+            let bytes = if made { bytes } else { self.apply_seq_shift(dir, &bytes) };
+            if self.takeover_armed && dir == "S>C" && !made && !label.starts_with("SHD") && self.seen_s.values().any(|m| m[0] == 14) {
+                // the adversary has taken the server's place: nothing more from the genuine server reaches the client
+                net_event("mdrop", json!({"dir": dir, "msg": label, "ord": o}));
+                continue;
+            }
             if self.take_op(dir, &label, o, &["drop"]).is_some() {
                 net_event("drop", json!({"dir": dir, "msg": label, "ord": o}));
                 continue;
@@ -687,6 +864,9 @@ impl ProxyState {
                 continue;
             }
             self.note_randoms(&bytes);
+            if dir == "S>C" {
+                self.note_plain(dir, &bytes);
+            }
             let dup = self.take_op(dir, &label, o, &["dup"]).is_some();
             net_event("tx", json!({"dir": dir, "msg": label, "ord": o, "dup": dup, "recs": describe(&bytes)}));
             wire.push(bytes.clone());
@@ -848,13 +1028,15 @@ impl Proxy {
                     biased;
                     r = cs.recv_from(&mut b1) => {
                         let Ok((n, _)) = r else { break };
-                        let outs = st.lock().process("C>S", &b1[..n]);
+                        let (outs, rev) = { let mut g = st.lock(); let o = g.process("C>S", &b1[..n]); (o, std::mem::take(&mut g.reverse)) };
                         for o in outs { let _ = ss.send_to(&o, server).await; }
+                        for (to, o) in rev { if to == "S>C" { let _ = cs.send_to(&o, client).await; } else { let _ = ss.send_to(&o, server).await; } }
                     }
                     r = ss.recv_from(&mut b2) => {
                         let Ok((n, _)) = r else { break };
-                        let outs = st.lock().process("S>C", &b2[..n]);
+                        let (outs, rev) = { let mut g = st.lock(); let o = g.process("S>C", &b2[..n]); (o, std::mem::take(&mut g.reverse)) };
                         for o in outs { let _ = cs.send_to(&o, client).await; }
+                        for (to, o) in rev { if to == "S>C" { let _ = cs.send_to(&o, client).await; } else { let _ = ss.send_to(&o, server).await; } }
                     }
                 }
             }
